@@ -94,6 +94,16 @@ def cases(tier, inst):
             yield (("and", a, ("not", b)), k)
             yield (("or", ("not", b), a), k)
             yield (("not", ("or", ("not", a), b)), k)
+    # universal conditions as operands: for_all over a variable of its own (z), over the un-nested elements of y.t (built
+    # from a free variable), next to / instead of the conditions that bind x and y, in conjunctions and disjunctions
+    for f in FA_LEAVES:
+        for a in XY_REP:
+            for op in ("and", "or"):
+                yield ((op, f, a), k, "xy", "fa")
+                for b in (XY_REP[:2] if tier == "quick" else XY_REP):
+                    if a != b:
+                        yield ((op, (("or" if op == "and" else "and"), f, a), b), 3, "xy", "fa")
+        yield (f, k, "xy", "fa")
     # only some of the variables selected (the other one is a join variable that is projected away)
     proj = leaves_xy()[:7]
     for a, b, c in itertools.permutations(proj, 3):
@@ -107,6 +117,13 @@ def cases(tier, inst):
         for t in trees_by_depth(XY_REP, 2):
             if Q.depth(t) == 2 and t[0] != "not":
                 yield (t, 3)
+
+
+_E = ("fl", A(Y, "t"))
+FA_LEAVES = [("fa", Z, ("cmp", "ge", A(X, "p"), A(Z, "q"))),
+             ("fa", Z, ("or", ("cmp", "ne", A(Y, "p"), A(Z, "p")), ("cmp", "ge", A(X, "q"), L(2)))),
+             ("fa", _E, ("cmp", "ge", _E, A(X, "p"))), ("fa", _E, ("cmp", "le", _E, L(2)))]
+VZ = VARS3[2]
 
 
 # ---------------------------------------------------------------- rewrite generators
@@ -213,19 +230,21 @@ def run_case(case, inst):
     if case[0] == "rule":
         return run_rule_case(case, inst)
     tree, k = case[0], case[1]
-    three = "z" in Q.cond_vars(tree)
+    fa = len(case) == 4           # z is the universal variable of a for_all: declared, neither selected nor a row variable
+    three = "z" in Q.cond_vars(tree) and not fa
     vars0 = VARS3 if three else VXY
     sel0 = (X, Y, Z) if three else (X, Y)
-    if len(case) > 2:
+    if len(case) == 3:
         sel0 = (("v", case[2]),)
     base = ((tree,), vars0, sel0, 0)
     members = orbit(base, k)
+    universals = (VZ,) if fa else ()
 
     def evaluate(m):
         conds, vars_, sel, perm = m
         q = ("Q", "an", "setof", sel, conds, vars_)
         world = build_world(RICH, PermInst(inst, perm))
-        rows = eval_rows(q, world, inst)
+        rows = eval_rows(q, world, inst, predeclare=universals)
         if is_exc(rows):
             return rows, None
         names = [s[1] for s in sel]
@@ -240,7 +259,7 @@ def run_case(case, inst):
             results[m] = got
             if exp is None and qw is not None:
                 q, world = qw
-                ref = Q.Ref(world, inst)
+                ref = Q.Ref(world, inst, universals=universals)
                 sols = ref.solutions(("Q", "an", "setof", sel0, (tree,), vars0))
                 exp = frozenset(frozenset((n, Q.norm(env[n])) for n in [s[1] for s in sel0]) for env in sols)
                 total = 1
@@ -250,7 +269,8 @@ def run_case(case, inst):
 
     results, exp, total = run_isolated(body)
     res = {"ok": True, "nontrivial": len(members) > 1 and 0 < len(exp) < total, "transitions": len(members),
-           "tags": [f"root={root_kind(tree)}", f"orbit_size_bucket={min(len(members) // 50 * 50, 400)}"],
+           "tags": [f"root={root_kind(tree)}", f"orbit_size_bucket={min(len(members) // 50 * 50, 400)}"]
+                   + (["for_all"] if fa else []),
            "outcome": str(len(exp))}
     base_res = results[base]
     for m, got in results.items():
@@ -274,9 +294,10 @@ def describe(case, inst):
         return (c12.describe(("zjoin", case[1], case[2], True), inst)
                 + "\n# C18: the same rule tree over the x / z domains as given, reversed and rotated must conclude the same")
     tree, k = case[0], case[1]
-    three = "z" in Q.cond_vars(tree)
-    sel = (("v", case[2]),) if len(case) > 2 else ((X, Y, Z) if three else (X, Y))
-    return (Q.up_world(RICH, inst) + "\nbase: " + Q.up_query(("Q", "an", "setof", sel, (tree,),
+    three = "z" in Q.cond_vars(tree) and len(case) != 4
+    sel = (("v", case[2]),) if len(case) == 3 else ((X, Y, Z) if three else (X, Y))
+    return (Q.up_world(RICH, inst) + ("\nwith symbolic_mode(): z = let(Item, DC)   # the universal variable" if len(case) == 4 else "")
+            + "\nbase: " + Q.up_query(("Q", "an", "setof", sel, (tree,),
                                                               VARS3 if three else VXY), inst)
             + f"\n# every query reachable from the base by <= {k} rewrites (swap operands, re-associate, and_()/or_() form, "
               "several conditions, mirror a comparison, contains<->in_, declaration order, selection order, domain "
